@@ -160,6 +160,42 @@ def sc5(F, R):
             R.ok("SC5", e.where(), "identifier text: as written, at most one leading character removed")
 
 
+SC6_DECODERS = ("from_str_radix", "from_str", "decode", "from_hex", "parse", "from_utf8")
+
+
+def sc6(F, R):
+    """what is decoded is what was validated: where a script argument is decoded (hex digits to bytes, digits to a number) under a
+    successful `REGEX.is_match(t)`, the text handed to the decoder is (a part of) that same `t` — not the text `t` was derived from.
+    PUT's data may be written with blanks, line breaks and dashes between the bytes; they are stripped *before* the test, and a
+    decoder fed with the unstripped argument rejects (or mis-reads) legally formatted data."""
+    c = sctx(F)
+    if c.root is None:
+        R.missing("SC6", "Script::deploy_to")
+        return
+    n = 0
+    for e in c.raw:
+        if e.kind != "call" or e.exp or e.name not in SC6_DECODERS or not e.args:
+            continue
+        tested = []
+        for f in e.facts:
+            if f[0] == "bool" and f[2] is True and f[1][0] == "call" and f[1][1].split("::")[-1] == "is_match" and len(f[1][2]) >= 2:
+                tested.append(strip_sites(strip_load(f[1][2][1])))
+        if not tested:
+            continue
+        n += 1
+        txt = strip_sites(e.args[0])
+        hit = any(mentions(txt, lambda x, t=t: strip_load(x) == t or x == t) for t in tested)
+        if hit:
+            R.ok("SC6", e.where(), "%s decodes (a part of) the text that passed the is_match test it is guarded by" % e.name)
+        else:
+            R.bad("SC6", "SC6/Script::deploy_to/decoded-text-not-the-validated-text/%s" % e.name, e.where(),
+                  "the text given to %s is not the text that `is_match` accepted on this path (the test was made on a cleaned copy, the "
+                  "decoder gets another string): legally formatted data — blanks, line breaks or dashes between the bytes — is rejected "
+                  "or mis-read although the direct call succeeds" % e.name,
+                  {"decoded": show(e.args[0], e.body)[:240], "validated": [show(t, e.body)[:240] for t in tested]})
+    R.floor("SC6", "decoding calls guarded by a successful regex test", n, 1, c.root.where())
+
+
 def sc1(F, R):
     c = sctx(F)
     root = c.root
